@@ -336,7 +336,11 @@ def rejecting(body, block):
     """Every normal path from `block` returns an Err (no block assigning a non-Err value to _0 is reachable)."""
     err, ok = result_assign_blocks(body)
     r = body.reach_ps(block)
-    return not (r & ok) and bool(r & err)
+    if not (r & ok) and bool(r & err):
+        return True
+    # the Err may be built in another local first (the result of an inlined fallible helper) and moved to the return place: what counts is the variant returned
+    rets = body.return_variants_ps(block)
+    return bool(rets) and all(v == "Err" for v in rets)
 
 
 def try_continue_block(body, call_site):
